@@ -20,16 +20,20 @@ SIG = b'\r\n\r\n\x00\r\nQUIT\n'
 
 
 class PPSock(object):
-    def __init__(self, stream, short, eof=True):
+    def __init__(self, stream, short, eof=True, yielding=False):
         self.stream = bytes(stream)
         self.pos = 0
         self.short = list(short)
         self.closed = False
+        self.yielding = yielding
 
     def fileno(self):
         return -1
 
     def recv_into(self, buf, n=0):
+        if self.yielding:
+            import gevent
+            gevent.sleep(0)       # a socket that has to wait for its bytes: other connections run meanwhile
         if n <= 0:
             n = len(buf)
         avail = len(self.stream) - self.pos
@@ -58,7 +62,7 @@ def edge_for(mode):
 
     class Rec(EdgeServer):
         def handle(self, sock, addr):
-            self.seen.append(addr)
+            self.seen.append((sock, addr))
 
     e = Rec(None, None)
     e.seen = []
@@ -212,6 +216,29 @@ def cases(tier, seed, phase):
         # declared length longer than what arrives (truncated)
         hdr2 = v2(1, fam, body, length=ln + 5)
         yield {'mode': 'v2', 'stream': hdr2.hex(), 'hdrlen': len(hdr2), 'short': [], 'what': 'v2len-trunc'}
+    # two connections handled at the same time, each read yielding to the other: every connection must come out as it does alone
+    good = [(ver, hdr) for ver, hdr in sl]
+    for j in range(400 if tier == 'quick' else 6000):
+        rng = rng_for(seed, 'c18pair', j)
+        ver, h1 = good[rng.randrange(len(good))]
+        same = [h for v, h in good if v == ver and len(h) == len(h1) and h != h1]
+        if ver == 'v2' and rng.random() < 0.6:
+            # same shape, other addresses
+            fam = rng.choice([0x11, 0x21])
+            mk = (lambda: v2(1, 0x11, a4('%d.%d.%d.%d' % tuple(rng.randrange(256) for _ in range(4)), '5.6.7.8', rng.randrange(65536), 25))) \
+                if fam == 0x11 else (lambda: v2(1, 0x21, a6('::%x' % rng.randrange(1, 65536), 'ffff::2', rng.randrange(65536), 587)))
+            h1, h2 = mk(), mk()
+        elif same and rng.random() < 0.7:
+            h2 = same[rng.randrange(len(same))]
+        else:
+            h2 = good[rng.randrange(len(good))][1] if rng.random() < 0.5 else h1
+            if (h2[:6] == b'PROXY ') != (ver == 'v1'):
+                h2 = h1
+        p1, p2 = PAYLOADS[j % len(PAYLOADS)], PAYLOADS[(j // 7) % len(PAYLOADS)]
+        mode = rng.choice([ver, 'auto'])
+        yield {'mode': mode, 'what': 'pair', 'hdrlen': len(h1),
+               'stream': (h1 + p1).hex(), 'short': [rng.randint(1, 9) for _ in range(len(h1) + 8)],
+               'stream2': (h2 + p2).hex(), 'short2': [rng.randint(1, 9) for _ in range(len(h2) + 8)]}
     # random garbage
     for j in range(3000 if tier == 'quick' else 60000):
         rng = rng_for(seed, 'c18g', j)
@@ -246,7 +273,32 @@ def impl_run(mode, stream, short):
         return 'escape:%s' % type(exc).__name__, sock.pos
     if not e.seen:
         return 'drop', sock.pos
-    return 'proceed ' + show_addr(e.seen[0]), sock.pos
+    return 'proceed ' + show_addr(e.seen[0][1]), sock.pos
+
+
+def impl_run_pair(mode, items):
+    """Several connections handled concurrently (one greenlet each, every read yields): [(stream, short)] -> [(out, consumed)]"""
+    import gevent
+    e = edge_for(mode)
+    del e.seen[:]
+    socks = [PPSock(st, sh, yielding=True) for st, sh in items]
+    escapes = {}
+
+    def go(i):
+        try:
+            e.handle(socks[i], ('peer', i))
+        except Exception as exc:
+            escapes[i] = 'escape:%s' % type(exc).__name__
+    gs = [gevent.spawn(go, i) for i in range(len(socks))]
+    gevent.joinall(gs, timeout=10)
+    res = []
+    for i, sk in enumerate(socks):
+        if i in escapes:
+            res.append((escapes[i], sk.pos))
+            continue
+        mine = [a for s_, a in e.seen if s_ is sk]
+        res.append(('proceed ' + show_addr(mine[0]), sk.pos) if mine else ('drop', sk.pos))
+    return res
 
 
 # ---- independent specification of a well-formed header (the PROXY protocol grammar), for the monitor
@@ -306,10 +358,29 @@ def spec_v2(stream):
 
 
 def run_case(case, model):
+    if case.get('what') == 'pair':
+        return run_pair(case, model)
+    return run_one(case, model, None)
+
+
+def run_pair(case, model):
+    a = (bytes.fromhex(case['stream']), case['short'])
+    b = (bytes.fromhex(case['stream2']), case['short2'])
+    res = impl_run_pair(case['mode'], [a, b])
+    r1 = run_one({'mode': case['mode'], 'stream': case['stream'], 'short': case['short'], 'what': 'pair'}, model, res[0])
+    r2 = run_one({'mode': case['mode'], 'stream': case['stream2'], 'short': case['short2'], 'what': 'pair'}, model, res[1])
+    mismatch = r1.mismatch or r2.mismatch
+    if mismatch:
+        mismatch = dict(mismatch, concurrent_with=(case['stream2'] if r1.mismatch else case['stream'])[:80])
+    key = (case['mode'], case['stream'], tuple(case['short']), case['stream2'], tuple(case['short2']))
+    return CaseResult(mismatch, r1.hits + r2.hits, key, sorted(set(r1.tags + r2.tags)))
+
+
+def run_one(case, model, given):
     stream = bytes.fromhex(case['stream'])
     mode = case['mode']
     short = case['short']
-    out, consumed = impl_run(mode, stream, short)
+    out, consumed = given if given is not None else impl_run(mode, stream, short)
     canon = '%s %d' % (out, consumed)
     mres = model.ask('proxy %s %s %s %s %s' % (mode, hx(stream), ','.join(map(str, short)) if short else '-',
                                               ip_table(stream), ntop6_table(stream)))
